@@ -264,7 +264,7 @@ int cmd_sched(const case_t *c)
     int_t et[MAXN + 1];
     /* enumerate all parent arrays et[j] in (j, n], keep the postordered ones */
     for (int_t j = 0; j < n; ++j) et[j] = j + 1;
-    static const int ws[] = {1, 4, 6}, rs[] = {1, 2, 3};
+    static const int ws[] = {1, 2, 3}, rs[] = {1, 2, 3};
     char sample[256]; sample[0] = 0;
     for (;;) {
         if (postordered(et, n)) {
